@@ -785,13 +785,23 @@ static uint32_t read_universal_char(char *p, int len) {
 }
 
 // Replace \u or \U escape sequences with corresponding UTF-8 bytes.
+// A universal character name must not designate a character of the
+// basic character set, a control character or a surrogate (C11
+// 6.4.3p2). Such a spelling is left as it is: replacing \u000A by a
+// real newline would, e.g., end a line comment in the middle.
+static bool is_valid_ucn(uint32_t c) {
+  if (c < 0xA0)
+    return c == 0x24 || c == 0x40 || c == 0x60;
+  return !(0xD800 <= c && c <= 0xDFFF);
+}
+
 static void convert_universal_chars(char *p) {
   char *q = p;
 
   while (*p) {
     if (startswith(p, "\\u")) {
       uint32_t c = read_universal_char(p + 2, 4);
-      if (c) {
+      if (c && is_valid_ucn(c)) {
         p += 6;
         q += encode_utf8(q, c);
       } else {
@@ -799,7 +809,7 @@ static void convert_universal_chars(char *p) {
       }
     } else if (startswith(p, "\\U")) {
       uint32_t c = read_universal_char(p + 2, 8);
-      if (c) {
+      if (c && is_valid_ucn(c)) {
         p += 10;
         q += encode_utf8(q, c);
       } else {
